@@ -38,6 +38,11 @@ UNITS = [
          funcs=[SSB + "add_op_state"], min_obligations=40),
 ]
 
+UNITS += [
+    Unit("ss.head.rely_guarantee", "lemma.c", kind="lemma", min_obligations=4,
+         doc="guarantee(add_op_state), guarantee(done) are contained in the rely; sentinel stable; rely transitive"),
+]
+
 # ------------------------------------------------------------------------------------------------
 # 2. done()  (exchange installs the sentinel; traversal = T contract with a ghost position and one symbolic victim)
 
@@ -126,6 +131,7 @@ UNITS += [
          lifts={"body": Lift(HPP, r"void set_value\(value_ptr_type v\)", rules=[
              Sub(r"\b(\w+) = std::move\((\w+)\);", r"val_move_assign(&\1, &\2);", None),
              Sub(r"\b(\w+) = (\w+);", r"val_copy_assign(&\1, &\2);", None),
+             Sub(r"([\w>-]+)\.reset\(\)", r"val_release(&\1)", None),
              Guard(r"^\{", "{", "val_release(&v);", 1),
              Members(["value"], optional=["value"]), NoCxxLeft()])},
          funcs=[HPP + ": detail::async_rw_mutex_shared_state<T>::set_value"], min_obligations=10),
